@@ -25,7 +25,10 @@ RULE = (
     "polyomino faces (collinear vertices when the lattice is not jittered), star-shaped concave "
     "faces with 4-8 vertices, bow-tie faces (holes), 3-8 sides, clockwise and anticlockwise, every "
     "ring rotation. Non-trivial: the case has a concave face, a face with collinear vertices and "
-    "more than one face size. Distinct = spec hash."
+    "more than one face size. Sub-check sparse_large_grids: 2-D CF / SHOC simple grids of 169-624 "
+    "cells with geometry only in a window of at most 6 x 7 cells; non-trivial there = a cell with "
+    "geometry at linear index >= 256. Every case triangulates twice (the first result's arrays "
+    "are overwritten in between). Distinct = spec hash."
 )
 ASSUMPTIONS = [
     "areas are compared with relative tolerance 1e-9",
@@ -43,9 +46,23 @@ def check_spec(spec, ctx):
         warnings.simplefilter("ignore")
         ctx.at("C14.triangulate")
         vertices, triangles, cell_indices = triangulate_dataset(ds)
-    vertices = numpy.asarray(vertices)
-    triangles = numpy.asarray(triangles)
-    cell_indices = numpy.asarray(cell_indices)
+    first = (numpy.array(vertices, copy=True), numpy.array(triangles, copy=True),
+             numpy.array(cell_indices, copy=True))
+    # history: the caller does what it likes with the arrays it was handed (here: overwrites
+    # them where they are writeable) and triangulates the same dataset again - the answer is a
+    # function of the dataset, so it is the same answer
+    for arr in (vertices, triangles, cell_indices):
+        if isinstance(arr, numpy.ndarray) and arr.flags.writeable and arr.size:
+            arr[...] = 0
+    with warnings.catch_warnings():
+        warnings.simplefilter("ignore")
+        ctx.at("C14.repeatable")
+        second = triangulate_dataset(ds)
+    ctx.check(all(numpy.array_equal(numpy.asarray(a), b) for a, b in zip(second, first)),
+              "C14.repeatable",
+              "triangulating the same dataset a second time (after the caller overwrote the first "
+              "result's arrays) gives a different answer")
+    vertices, triangles, cell_indices = first
     n_cells = len(polygons)
     ctx.check(len(triangles) == len(cell_indices), "C14.shape",
               lambda: f"{len(triangles)} triangles but {len(cell_indices)} cell indexes")
@@ -147,6 +164,44 @@ def strategy(tier):
     return S.dataset_spec(with_vars=False, modes=("raw",), geom_kwargs={"twist": True})
 
 
+@st.composite
+def sparse_grid_spec(draw):
+    """A 2-D CF grid of several hundred cells of which only a small window has geometry (a model
+    grid that is mostly land): few triangles, large cell indexes."""
+    nj, ni = draw(st.integers(13, 26)), draw(st.integers(13, 24))
+    h, w = draw(st.integers(1, 6)), draw(st.integers(1, 7))
+    # the window sits late in linear order more often than not
+    j0 = draw(st.one_of(st.integers(0, nj - h), st.integers(max(0, nj - h - 3), nj - h)))
+    i0 = draw(st.integers(0, ni - w))
+    unit = 2.0 ** -draw(st.sampled_from([1, 2, 3]))
+    x0, y0 = draw(st.integers(-40, 40)) * unit, draw(st.integers(-40, 40)) * unit
+    nodes = [[[x0 + i * unit, y0 + j * unit] for i in range(ni + 1)] for j in range(nj + 1)]
+    holes = [[not (j0 <= j < j0 + h and i0 <= i < i0 + w) for i in range(ni)] for j in range(nj)]
+    punched = draw(st.lists(st.tuples(st.integers(0, h - 1), st.integers(0, w - 1)), max_size=3))
+    for dj, di in punched:
+        if h * w > len(punched):
+            holes[j0 + dj][i0 + di] = True
+    if all(all(r) for r in holes):
+        holes[j0][i0] = False
+    shoc = draw(st.booleans())
+    geom = {"nodes": nodes, "holes": holes, "twisted": [], "bounds": draw(st.booleans()),
+            "bad_bounds": None,
+            "names": draw(st.sampled_from(S.SHOC_SIMPLE_NAMES if shoc else S.CF2D_NAMES)),
+            "coords_as": draw(st.sampled_from(["coord", "var"])), "bounds_as": "var",
+            "detect": "units", "decoy_first": False}
+    return {"conv": "shoc_simple" if shoc else "cf2d", "geom": geom, "extra": {}, "vars": [],
+            "mode": "raw", "bind": draw(st.sampled_from(["auto", "explicit"])), "warmup": []}
+
+
+def check_sparse(spec, ctx):
+    check_spec(spec, ctx)
+    holes = spec["geom"]["holes"]
+    ni = len(holes[0])
+    last = max(j * ni + i for j, row in enumerate(holes) for i, hole in enumerate(row) if not hole)
+    ctx.label("last_cell_with_geometry>=256" if last >= 256 else "last_cell_with_geometry<256")
+    ctx.nontrivial(last >= 256)
+
+
 def mesh_strategy(tier):
     return S.dataset_spec(convs=["ugrid"], with_vars=False, modes=("raw",),
                           geom_kwargs={"jitter": False})
@@ -156,5 +211,6 @@ SUBS = [
     Sub("datasets", strategy, check_spec, quick=150, thorough=800),
     Sub("polyomino_meshes", mesh_strategy, check_spec, quick=100, thorough=600),
     Sub("star_meshes", lambda tier: star_mesh_spec(), check_spec, quick=150, thorough=1000),
+    Sub("sparse_large_grids", lambda tier: sparse_grid_spec(), check_sparse, quick=25, thorough=200),
 ]
 MATCHERS = {}
